@@ -31,6 +31,7 @@
  Rz sentinel      : fields defaulted when None are None when absent from the input (loader .get without another default).
  R10 defaults/kind: connector defaults of the same side; amplifier kind decided on the frozen side of the OMS per insertion function.
  R11 band cover     : band eligibility of amplifier models includes the edges (shared with C10).
+ R12 SI default     : a lone spectral definition with another name is moved under 'default' (stored and removed).
 """
 import ast
 
@@ -631,6 +632,41 @@ def r11_band_cover(ctx):
     _r(proxy(ctx, 'R11'))
 
 
+
+def r12_si_default(ctx):
+    """R12: an equipment library whose only SI entry has another name than `default` is read as if that entry were called
+    `default`: the entry is MOVED (stored under 'default' and removed under its own key, under the test that there is no
+    'default'), so that the library still holds one spectral definition - a second one would make every ROADM's default design
+    multi-band and abort the auto-design"""
+    from ..pattern import find
+    from .common import holds_at
+    repo = ctx.repo
+    f = repo.func('gnpy.tools.json_io', '_si_sanity_check')
+    E = f.params[0]
+    moves = find(f"{E}['SI']['default'] = {E}['SI'][E_k]", f.node)
+    ok = False
+    det = ''
+    if len(moves) == 1:
+        st, b = moves[0]
+        k = ast.unparse(b['E_k'])
+        removed = [n for n in walk_no_nested(f.node) if
+                   (isinstance(n, ast.Delete) and any(ast.unparse(t) == f"{E}['SI'][{k}]" for t in n.targets)) or
+                   (isinstance(n, ast.Call) and isinstance(n.func, ast.Attribute) and n.func.attr == 'pop' and
+                    ast.unparse(n.func.value) == f"{E}['SI']" and n.args and ast.unparse(n.args[0]) == k)]
+        guarded = any("'default' not in" in c for c in holds_at(st))
+        det = f'removed: {len(removed)}; guarded: {guarded}'
+        ok = len(removed) == 1 and guarded and getattr(removed[0], 'lineno', 0) >= st.lineno
+    else:
+        # moved in one expression: E['SI']['default'] = E['SI'].pop(k)
+        mv = find(f"{E}['SI']['default'] = {E}['SI'].pop(E_k)", f.node)
+        ok = len(mv) == 1 and any("'default' not in" in c for c in holds_at(mv[0][0]))
+        det = f'{len(mv)} pop-moves'
+    ctx.check('R12.si-default', site(f), ok, key(f, 'si-move'),
+              "the first spectral definition is not MOVED under 'default' when there is none (stored there and removed under its own "
+              'name): the library would hold two definitions and the design of every ROADM without design bands turn multi-band', det)
+    ctx.need('R12.si-default', 1)
+
+
 from ..memo import rule_for as _memo_rule
 
 RULES_MEMO = ('Rm.memo', _memo_rule('C08', 'a structural decision taken for another element would be reused'))
@@ -641,4 +677,4 @@ from ..presence import rule_for as _presence_rule
 RULES_PRESENCE = ('Rp.presence', _presence_rule('C08', 'a legal zero would be read as missing'))
 
 RULES = [('R1.surgery', r1_surgery), ('R2.edge-weight', r2_weights), ('R3.completeness', r3_completeness), ('R4.split', r4_split),
-         ('R5.order', r5_order), ('R6.every-oms', r6_every_oms), RULES_MEMO, RULES_PRESENCE, ('R7.span-walk', r7_span_walk), ('Ru.units', ru_units), ('Rv.verbose-pure', rv_verbose), ('Re.for-each', re_foreach), ('Rn.arg-roles', rn_arg_roles), ('R9.fibre-lists', r9_fibre_lists), ('Rz.sentinel', rs_sentinel), ('R10.defaults-and-kind', r10_defaults_and_kind), ('R11.band-cover', r11_band_cover)]
+         ('R5.order', r5_order), ('R6.every-oms', r6_every_oms), RULES_MEMO, RULES_PRESENCE, ('R7.span-walk', r7_span_walk), ('Ru.units', ru_units), ('Rv.verbose-pure', rv_verbose), ('Re.for-each', re_foreach), ('Rn.arg-roles', rn_arg_roles), ('R9.fibre-lists', r9_fibre_lists), ('Rz.sentinel', rs_sentinel), ('R10.defaults-and-kind', r10_defaults_and_kind), ('R11.band-cover', r11_band_cover), ('R12.si-default', r12_si_default)]
